@@ -60,6 +60,16 @@ type Ledger struct {
 	start     time.Time
 	index     map[string]*Obligation
 	rename    map[string]string // rule-name prefixes rewritten while a rule shared with another property runs
+	only      bool              // with rename: obligations of rules matching no prefix are not recorded
+}
+
+// AsOnly is As restricted to the listed rules: whatever else f reports is dropped (f is another property's whole check,
+// of which only some rules are necessary conditions of this property).
+func (l *Ledger) AsOnly(rename map[string]string, f func()) {
+	oldOnly := l.only
+	l.only = true
+	defer func() { l.only = oldOnly }()
+	l.As(rename, f)
 }
 
 // As runs f with rule names rewritten: a rule owned by one property is a necessary condition of another one too, and
@@ -77,11 +87,16 @@ func NewLedger(prop, tier string, seed int, verifDir string) *Ledger {
 }
 
 func (l *Ledger) add(o *Obligation) *Obligation {
+	matched := false
 	for from, to := range l.rename {
 		if strings.HasPrefix(o.Rule, from) {
 			o.Rule = to + strings.TrimPrefix(o.Rule, from)
+			matched = true
 			break
 		}
+	}
+	if l.only && !matched && !strings.HasPrefix(o.Rule, "infrastructure") {
+		return o
 	}
 	k := o.Rule + "\x00" + o.Construct
 	if old, ok := l.index[k]; ok {
